@@ -119,6 +119,11 @@ class DecoratorRegistry:
                 continue
             if dec_name not in func_args:
                 continue
+            if kwargs[dec_name] is None:
+                # None is the documented default: the trigger is absent
+                found_args.add(dec_name)
+                func_args.remove(dec_name)
+                continue
 
             dec_args = kwargs[dec_name]
             if not isinstance(dec_args, list):
@@ -138,6 +143,9 @@ class DecoratorRegistry:
         unknown_args = set(kwargs.keys()).difference(found_args)
         if unknown_args:
             raise ValueError(f"Unknown arguments: {unknown_args}")
+        if not dm.get_decorators(TriggerDecorator):
+            # neither a trigger nor a timeout: nothing can end the wait
+            return {"trigger_type": "none"}
         await dm.validate()
 
         # state_trigger sets __test_handshake__ after the initial checks.
